@@ -62,11 +62,11 @@ def c01_programs(tier, seed, rnd):
     """Returns (programs, TLC results of the generator runs)."""
     plans = []
     if tier == "quick":
-        plans = [("control", A_CONTROL, 6, 2200), ("effects", A_EFFECTS, 6, 1300), ("loops", A_LOOPS, 6, 800),
-                 ("nest", A_NEST, 8, 1500)]
+        plans = [("control", A_CONTROL, 6, 2000), ("effects", A_EFFECTS, 6, 1200), ("loops", A_LOOPS, 6, 700),
+                 ("nest", A_NEST, 8, 1300), ("optm", A_OPTM, 7, 900)]
     else:
         plans = [("control", A_CONTROL, 7, 30000), ("effects", A_EFFECTS, 7, 15000), ("loops", A_LOOPS, 7, 10000),
-                 ("nest", A_NEST, 9, 12500)]
+                 ("nest", A_NEST, 9, 12500), ("optm", A_OPTM, 8, 20000)]
     progs, results = [], []
     for name, alpha, n, cap in plans:
         c = dict(alpha)
